@@ -121,7 +121,7 @@ theorem zdisc_suffix {nt : Bool} {r r' : List Step} (h : r' <:+ r) (d : zdisc nt
 theorem compile_zdisc (v : Variant) (cfg : Cfg) (call : Call) (hv : v.compressUnderLock = true) :
     zdisc cfg.noTakeover (compile v cfg call) = true := by
   cases call <;>
-    simp only [compile, sendData, closeBody, writeProg, hv] <;>
+    simp only [compile, sendData, closeBody, writeProg, checks, hv] <;>
     (repeat' split) <;> simp_all [zdisc, zNext, zPrev, holds]
 
 theorem alt_zdisc (v : Variant) (a : Alt) (nt : Bool) : zdisc nt (altSteps v a) = true := by
@@ -129,7 +129,7 @@ theorem alt_zdisc (v : Variant) (a : Alt) (nt : Bool) : zdisc nt (altSteps v a) 
 
 theorem compile_zpos (v : Variant) (cfg : Cfg) (call : Call) : zpos (compile v cfg call) = 0 := by
   cases call <;>
-    simp only [compile, sendData, closeBody, writeProg] <;>
+    simp only [compile, sendData, closeBody, writeProg, checks] <;>
     (repeat' split) <;> simp [zpos]
 
 theorem alt_zpos (v : Variant) (a : Alt) : zpos (altSteps v a) = 0 := by
@@ -198,7 +198,7 @@ theorem exec_quiet (v : Variant) (t : Tid) (st : Step) (r : List Step) (sh : Sha
   cases st <;>
     first
     | exact ⟨rfl, rfl, rfl, rfl⟩
-    | (simp only [exec]; split <;> exact ⟨rfl, rfl, rfl, rfl⟩)
+    | (simp only [exec]; (repeat' split) <;> exact ⟨rfl, rfl, rfl, rfl⟩)
     | exact absurd q (by simp [quiet])
 
 /-- the relation between the compression object, the thread-local payload and the wire at each
